@@ -34,6 +34,9 @@ CONSTANTS Subs,      \* field / member ids
 
 VARIABLES db
 vars == <<db>>
+\* durations of the *EXPIRE commands: the positive ones plus "now" and "one tick ago" (the key is dead
+\* at once; ZKV!PastOut keeps instants at or before tick 0 out)
+EDurs == Durs \cup {0, -1}
 
 Init == db = InitDB
 
@@ -97,7 +100,7 @@ NextKV ==
        \/ \E d \in {-1, 0, 2} : IncrBy(k, d, t)
        \/ \E v \in VIds, o \in {0, 1} : SetRange(k, o, v, t)
        \/ \E k2 \in Keys : Del2(k, k2, t)
-       \/ \E d \in Durs : Expire(k, d, t)
+       \/ \E d \in EDurs : Expire(k, d, t)
 SpecKV == Init /\ [][NextKV]_vars
 
 -----------------------------------------------------------------------------
@@ -122,7 +125,7 @@ NextH ==
        \/ \E f, g \in Subs, v, w \in VIds : HMSet(k, f, v, g, w, t)
        \/ \E f \in Subs : HDel(k, f, t) \/ HIncrBy(k, f, 1, t) \/ HIncrBy(k, f, 0, t)
        \/ \E f, g \in Subs : HDel2(k, f, g, t)
-       \/ \E d \in Durs : HExpire(k, d, t)
+       \/ \E d \in EDurs : HExpire(k, d, t)
 SpecH == Init /\ [][NextH]_vars
 
 -----------------------------------------------------------------------------
@@ -151,7 +154,7 @@ NextL ==
        \/ \E v, w \in VIds : LPush2(k, v, w, t) \/ RPush2(k, v, w, t)
        \/ \E i \in LIdx, v \in VIds : LSet(k, i, v, t)
        \/ \E s, e \in LIdx : LTrim(k, s, e, t)
-       \/ \E d \in Durs : LExpire(k, d, t)
+       \/ \E d \in EDurs : LExpire(k, d, t)
 SpecL == Init /\ [][NextL]_vars
 
 -----------------------------------------------------------------------------
@@ -175,7 +178,7 @@ NextS ==
        \/ \E m \in Subs : SAdd(k, m, t) \/ SRem(k, m, t)
        \/ \E m, n \in Subs : SAdd2(k, m, n, t) \/ SRem2(k, m, n, t)
        \/ \E n \in {1, 2, 5} : SPopN(k, n, t)
-       \/ \E d \in Durs : SExpire(k, d, t)
+       \/ \E d \in EDurs : SExpire(k, d, t)
 SpecS == Init /\ [][NextS]_vars
 
 -----------------------------------------------------------------------------
@@ -211,7 +214,7 @@ NextZ ==
        \/ \E s, e \in {-1, 0, 1} : ZRemRangeByRank(k, s, e, t)
        \/ \E iv \in ZIv : ZRemRangeByScore(k, iv[1], iv[2], iv[3], iv[4], t)
        \/ \E iv \in LexIv : ZRemRangeByLex(k, iv[1], iv[2], iv[3], iv[4], t)
-       \/ \E d \in Durs : ZExpire(k, d, t)
+       \/ \E d \in EDurs : ZExpire(k, d, t)
 SpecZ == Init /\ [][NextZ]_vars
 
 -----------------------------------------------------------------------------
@@ -230,7 +233,7 @@ NextB ==
        \* kv-bitmap-legacy-conversion, and stays out of the graph; the model and its theorems cover it)
        \/ BitClear(k, t) \/ BPersist(k, t)
        \/ \E o \in BOffs, v \in {0, 1} : SetBit(k, o, v, t)
-       \/ \E d \in Durs : BExpire(k, d, t)
+       \/ \E d \in EDurs : BExpire(k, d, t)
 SpecB == Init /\ [][NextB]_vars
 
 -----------------------------------------------------------------------------
@@ -256,7 +259,7 @@ CmdsKV ==
   \cup {C("incrby", k, <<d>>) : k \in Keys, d \in {-1, 2}}
   \cup {C("setrange", k, <<o, v>>) : k \in Keys, o \in {0, 1}, v \in VIds}
   \cup {C("getrange", k, <<s, e>>) : k \in Keys, s \in RIdx, e \in RIdx}
-  \cup {C("expire", k, <<d>>) : k \in Keys, d \in Durs}
+  \cup {C("expire", k, <<d>>) : k \in Keys, d \in EDurs}
 CmdsH ==
   {C(n, k, <<>>) : n \in {"hlen", "hgetall", "hkeys", "hvals", "hkeyexist", "httl", "hclear", "hpersist"}, k \in Keys}
   \cup {C(n, k, <<f>>) : n \in {"hget", "hexists", "hdel"}, k \in Keys, f \in Subs}
@@ -264,7 +267,7 @@ CmdsH ==
   \cup {C(n, k, <<f, v>>) : n \in {"hset", "hsetnx"}, k \in Keys, f \in Subs, v \in VIds}
   \cup {C("hmset", k, <<f, v, g, v>>) : k \in Keys, f \in Subs, g \in Subs, v \in VIds}
   \cup {C("hincrby", k, <<f, 1>>) : k \in Keys, f \in Subs}
-  \cup {C("hexpire", k, <<d>>) : k \in Keys, d \in Durs}
+  \cup {C("hexpire", k, <<d>>) : k \in Keys, d \in EDurs}
 CmdsL ==
   {C(n, k, <<>>) : n \in {"llen", "lkeyexist", "lttl", "lpop", "rpop", "lclear", "lpersist"}, k \in Keys}
   \cup {C("lindex", k, <<i>>) : k \in Keys, i \in LIdx}
@@ -272,13 +275,13 @@ CmdsL ==
   \cup {C(n, k, <<v>>) : n \in {"lpush", "rpush"}, k \in Keys, v \in VIds}
   \cup {C(n, k, <<v, w>>) : n \in {"lpush2", "rpush2"}, k \in Keys, v \in VIds, w \in VIds}
   \cup {C("lset", k, <<i, v>>) : k \in Keys, i \in LIdx, v \in VIds}
-  \cup {C("lexpire", k, <<d>>) : k \in Keys, d \in Durs}
+  \cup {C("lexpire", k, <<d>>) : k \in Keys, d \in EDurs}
 CmdsS ==
   {C(n, k, <<>>) : n \in {"scard", "smembers", "skeyexist", "sttl", "spop", "sclear", "spersist"}, k \in Keys}
   \cup {C(n, k, <<m>>) : n \in {"sismember", "sadd", "srem"}, k \in Keys, m \in Subs}
   \cup {C(n, k, <<m, n2>>) : n \in {"sadd2", "srem2"}, k \in Keys, m \in Subs, n2 \in Subs}
   \cup {C(n, k, <<x>>) : n \in {"srandmember", "spopn"}, k \in Keys, x \in {1, 2, 5}}
-  \cup {C("sexpire", k, <<d>>) : k \in Keys, d \in Durs}
+  \cup {C("sexpire", k, <<d>>) : k \in Keys, d \in EDurs}
 CmdsZ ==
   {C(n, k, <<>>) : n \in {"zcard", "zkeyexist", "zttl", "zclear", "zpersist"}, k \in Keys}
   \cup {C(n, k, <<m>>) : n \in {"zscore", "zrank", "zrevrank", "zrem"}, k \in Keys, m \in Subs}
@@ -289,13 +292,13 @@ CmdsZ ==
   \cup {C("zadd2", k, <<s, m, s, m2>>) : k \in Keys, s \in ZScores, m \in Subs, m2 \in Subs}
   \cup {C("zincrby", k, <<1, m>>) : k \in Keys, m \in Subs}
   \cup {C("zrem2", k, <<m, m2>>) : k \in Keys, m \in Subs, m2 \in Subs}
-  \cup {C("zexpire", k, <<d>>) : k \in Keys, d \in Durs}
+  \cup {C("zexpire", k, <<d>>) : k \in Keys, d \in EDurs}
 CmdsB ==
   {C(n, k, <<>>) : n \in {"bitcount", "bkeyexist", "bttl", "bitclear", "bpersist"}, k \in Keys}
   \cup {C("getbit", k, <<o>>) : k \in Keys, o \in BOffs}
   \cup {C("setbit", k, <<o, v>>) : k \in Keys, o \in BOffs, v \in {0, 1}}
   \cup {C("bitcount2", k, <<s, e>>) : k \in Keys, s \in {0, 1, 1024}, e \in {-1, 0, 1023, 1024}}
-  \cup {C("bexpire", k, <<d>>) : k \in Keys, d \in Durs}
+  \cup {C("bexpire", k, <<d>>) : k \in Keys, d \in EDurs}
 AllCmds == CmdsKV \cup CmdsH \cup CmdsL \cup CmdsS \cup CmdsZ
 CmdsLD == CmdsKV \cup CmdsH
 CONSTANT TCmds
